@@ -1,0 +1,36 @@
+//go:build verif
+
+package batchers
+
+// Contracts for govc (see /verif/DESIGN.md, C05 / C01 / C02 / C06). Comment-only file.
+
+// C05: status shared between the reader goroutines and the renderer. Every direct access needs
+// the Batcher's mutex; the byte counter may only be touched through sync/atomic. Every method
+// takes the mutex itself (callers do not hold it) and releases it on every path.
+//@ guarded Batcher.sourceCount, readCount, errorCount, activeFiles, lastRate, lastRateBytes, lastRateUpdate by mux
+//@ atomicfield Batcher.readBytes
+
+//@ func (*Batcher).setSourceCount
+//@   requires !mu_held(s)
+//@   ensures !mu_held(s)
+//@ func (*Batcher).startFileReading
+//@   requires !mu_held(s)
+//@   ensures !mu_held(s)
+//@ func (*Batcher).stopFileReading
+//@   requires !mu_held(s)
+//@   ensures !mu_held(s)
+//@   loop 1 invariant mu_held(s) && rangelen() == len(s.activeFiles)
+//@ func (*Batcher).incErrors
+//@   requires !mu_held(s)
+//@   ensures !mu_held(s)
+//@ func (*Batcher).incReadBytes
+//@ func (*Batcher).ReadBytes
+//@ func (*Batcher).ReadErrors
+//@   requires !mu_held(s)
+//@   ensures !mu_held(s)
+//@ func (*Batcher).ActiveFileCount
+//@   requires !mu_held(s)
+//@   ensures !mu_held(s)
+//@ func (*Batcher).StatusString
+//@   requires !mu_held(s)
+//@   ensures !mu_held(s)
